@@ -198,6 +198,14 @@ func init() {
 					}
 				}
 			}
+			// Content-Type parameter edge shapes on requests that carry a body (the multipart boundary scanner runs on every such request)
+			for _, ct := range []string{"multipart/form-data", "multipart/form-data;", "multipart/form-data; ", "multipart/form-data; x=1", "multipart/form-data;q=1", "multipart/form-data; b",
+				"multipart/form-data; boundary", "multipart/form-data; boundary=", "multipart/form-data; BOUNDARY=b", "multipart/form-data; boundar=b", "multipart/form-data; boundary=\"", "multipart/form-data; boundary=\"b",
+				"multipart/form-data; boundary=b;", "multipart/form-data;boundary=b; x", "multipart/form-data; x=\"y;boundary=b", "multipart/form-data ; boundary=b", "MULTIPART/FORM-DATA; boundary=b", "multipart/form-data; a=1; b=2; c", "multipart/form-data;;;;", "multipart/form-data;\t"} {
+				for _, fr := range []string{"Content-Length: 3\r\n\r\nabc", "Transfer-Encoding: chunked\r\n\r\n3\r\nabc\r\n0\r\n\r\n", "Content-Length: 0\r\n\r\n"} {
+					emit("req", []byte("POST / HTTP/1.1\r\nHost: h\r\nContent-Type: "+ct+"\r\n"+fr), []byte{byte(r.Intn(256))}, []byte{byte(r.Intn(64))})
+				}
+			}
 			for digits := 17; digits <= 21; digits++ {
 				for _, top := range "1289" {
 					dec := string(top) + strings.Repeat(string("0379"[r.Intn(4)]), digits-1)
